@@ -90,4 +90,45 @@ theorem getrf_side (n : Nat) (A : Mat) : ∀ t, t ≤ n →
     have hprev := (getrfStep_ok hok').1
     exact LUSide_step n m (by omega) _ (ih (by omega) hprev) hok'
 
+/-! ### re-indexing by the recorded permutation (right-sided solve) -/
+
+theorem permInvOf_permOf (P : Nat → Nat) : ∀ t i, permInvOf P t (permOf P t i) = i := by
+  intro t
+  induction t with
+  | zero => intro i; rfl
+  | succ m ih => intro i; simp only [permOf, permInvOf]; rw [ih, sw_sw]
+
+theorem permOf_lt (P : Nat → Nat) (n : Nat) : ∀ t, t ≤ n → (∀ c, c < t → P c < n) →
+    ∀ i, i < n → permOf P t i < n := by
+  intro t
+  induction t with
+  | zero => intro _ _ i hi; exact hi
+  | succ m ih =>
+    intro hm hP i hi
+    simp only [permOf]
+    exact ih (by omega) (fun c hc => hP c (by omega)) _ (sw_lt (by omega) (hP m (by omega)) hi)
+
+/-- a sum is invariant under a transposition of its index range -/
+theorem sum_sw {n a b : Nat} (ha : a < n) (hb : b < n) (f : Nat → Rat) :
+    sum n (fun i => f (sw a b i)) = sum n f := by
+  rw [sum_eq_finset, sum_eq_finset]
+  apply Finset.sum_nbij' (sw a b) (sw a b)
+  · intro i hi; exact Finset.mem_range.mpr (sw_lt ha hb (Finset.mem_range.mp hi))
+  · intro i hi; exact Finset.mem_range.mpr (sw_lt ha hb (Finset.mem_range.mp hi))
+  · intro i _; exact sw_sw a b i
+  · intro i _; exact sw_sw a b i
+  · intro i _; rfl
+
+/-- … and under the row permutation recorded by `getrf` -/
+theorem sum_permOf (P : Nat → Nat) (n : Nat) : ∀ t, t ≤ n → (∀ c, c < t → P c < n) →
+    ∀ f : Nat → Rat, sum n (fun i => f (permOf P t i)) = sum n f := by
+  intro t
+  induction t with
+  | zero => intro _ _ f; rfl
+  | succ m ih =>
+    intro hm hP f
+    simp only [permOf]
+    rw [sum_sw (by omega) (hP m (by omega)) (fun i => f (permOf P m i))]
+    exact ih (by omega) (fun c hc => hP c (by omega)) f
+
 end SharkVerif.LinSolve
